@@ -52,6 +52,32 @@ def settings_for(p, need, r, tier):
     return out
 
 
+def directed_programs():
+    """user-numbered slots next to the compiler's own numbering: a variable with a requested low slot id, a subroutine with
+    k by-value parameters (k compiler slots under the scratch convention, none under frame pointers) and m automatic locals.
+    The requested slot must keep its value under every setting."""
+    from recipes import U, Program, Sub, Var
+    out = []
+    for sid in (0, 1, 2, 3, 5):
+        for k in (1, 2, 3, 4):
+            for m in (0, 2):
+                u = Var(U, sid)
+                ps = [("val", Var(U)) for _ in range(k)]
+                f = Sub(0, "f", ps, U, None)
+                acc = ("param", 0)
+                for j in range(1, k):
+                    acc = ("op", "Add2", [acc, ("param", j)])
+                f.body = ("seq", [acc])
+                autos = [Var(U) for _ in range(m)]
+                body = [("store", u, ("int", 7))] + [("store", a, ("int", 20 + j)) for j, a in enumerate(autos)]
+                body.append(("op", "PopU", [("call", f, [("int", 10 + j) for j in range(k)])]))
+                for a in autos:
+                    body.append(("op", "PopU", [("load", a)]))
+                body.append(("ret", ("op", "EqU", [("load", u), ("int", 7)])))
+                out.append((f"requested-slot/{sid}/{k}/{m}", Program("app", ("seq", body), [u] + autos, [f])))
+    return out
+
+
 def has_dead_store_pattern(prog) -> bool:
     """cheap syntactic over-approximation of the known finding: some variable is stored more than
     once while it is loaded at most once (candidate for 'all stores deleted')"""
@@ -108,24 +134,31 @@ def run(tier: str) -> int:
     distinct, samples, evaluations = set(), [], 0
     import time
     budget = 75 if tier == "quick" else 1500
-    for i in range(nprog):
+    directed = directed_programs()
+    stats["directed programs"] = len(directed)
+    for i in range(-len(directed), nprog):
         if time.time() - rep.t0 > budget:
             rep.notes.append(f"time budget reached after {i} programs")
             break
-        mode = r.choice(["app", "app", "sig"])
-        gv = r.choice([4, 6, 8, 9, 10])
-        nsubs = r.choice([0, 0, 1, 2, 3])
-        if r.random() < 0.2:
-            # by-reference stream: ScratchVar parameters mixed with by-value ones (frame-pointer prologues differ)
-            nsubs, gv = r.choice([2, 3]), max(gv, 6)
-            cfg = Cfg(mode=mode, version=gv, subs=nsubs, recursive=False, call_bias=0.35, byref=True, byref_p=0.6, max_depth=3, max_stmts=4)
+        if i < 0:
+            _dname, p = directed[i + len(directed)]
+            mode, nsubs = p.mode, len(p.subs)
+            stats["directed:" + _dname.split("/")[0]] += 1
         else:
-            cfg = Cfg(mode=mode, version=gv, subs=nsubs, recursive=nsubs > 0 and r.random() < 0.4, call_bias=0.15 if nsubs else 0.0,
-                      byref=r.random() < 0.2, max_depth=r.choice([3, 4]), max_stmts=r.choice([3, 5, 7]))
-        g = G(r, cfg)
-        p = g.program()
-        for k, v in g.stats.items():
-            gstats[k.split(":")[0]] += v
+            mode = r.choice(["app", "app", "sig"])
+            gv = r.choice([4, 6, 8, 9, 10])
+            nsubs = r.choice([0, 0, 1, 2, 3])
+            if r.random() < 0.2:
+                # by-reference stream: ScratchVar parameters mixed with by-value ones (frame-pointer prologues differ)
+                nsubs, gv = r.choice([2, 3]), max(gv, 6)
+                cfg = Cfg(mode=mode, version=gv, subs=nsubs, recursive=False, call_bias=0.35, byref=True, byref_p=0.6, max_depth=3, max_stmts=4)
+            else:
+                cfg = Cfg(mode=mode, version=gv, subs=nsubs, recursive=nsubs > 0 and r.random() < 0.4, call_bias=0.15 if nsubs else 0.0,
+                          byref=r.random() < 0.2, max_depth=r.choice([3, 4]), max_stmts=r.choice([3, 5, 7]))
+            g = G(r, cfg)
+            p = g.program()
+            for k, v in g.stats.items():
+                gstats[k.split(":")[0]] += v
         need = max(required_version(p.main), 4 if nsubs else 2, *[required_version(s.body) for s in p.subs] or [2])
         req_slots = sorted({v.slot for v in p.vars if v.slot is not None})
         slot_arg = ",".join(map(str, req_slots)) if req_slots else "-"
